@@ -1,4 +1,373 @@
+/-
+  C05 — Tensor diagrams equal the Einstein sum they denote; ε/δ are exact.
+  Property theorems (helper lemmas are private to this file only where they are pure list facts).
+-/
 import Geo.LeviCivita
+import Mathlib.GroupTheory.Perm.Fin
+import Mathlib.Algebra.BigOperators.Fin
+import Mathlib.Tactic.Ring
 namespace Geo
-theorem C05_placeholder : (1 : Nat) = 1 := rfl
+
+/-! ## T05.1  `add_edge` pairs the FIRST unused covariant index of the source with the FIRST unused
+    contravariant index of the target; the two documented errors are raised exactly when they should -/
+
+/-- success ⇔ both lists are non-empty and the two dimensions agree -/
+theorem T05_1_addEdge_ok_iff (d : Diagram) (s t : Node) :
+    (d.addEdge' s t).2 = none ↔
+      ∃ i rs j rt, (d.locate s t).1.freeCov (d.locate s t).2.1 = i :: rs ∧
+                   (d.locate s t).1.freeCon (d.locate s t).2.2 = j :: rt ∧
+                   s.dimAt i = t.dimAt j := by
+  unfold Diagram.addEdge'
+  cases h1 : (d.locate s t).1.freeCov (d.locate s t).2.1 with
+  | nil => simp [h1]
+  | cons i rs =>
+    cases h2 : (d.locate s t).1.freeCon (d.locate s t).2.2 with
+    | nil => simp [h1, h2]
+    | cons j rt =>
+      by_cases hd : s.dimAt i = t.dimAt j <;> simp [h1, h2, hd]
+
+/-- "no indices left" ⇔ the source has no unused covariant or the target no unused contravariant index -/
+theorem T05_1_addEdge_noIndices_iff (d : Diagram) (s t : Node) :
+    (d.addEdge' s t).2 = some .noIndicesLeft ↔
+      ((d.locate s t).1.freeCov (d.locate s t).2.1 = [] ∨ (d.locate s t).1.freeCon (d.locate s t).2.2 = []) := by
+  unfold Diagram.addEdge'
+  cases h1 : (d.locate s t).1.freeCov (d.locate s t).2.1 with
+  | nil => simp [h1]
+  | cons i rs =>
+    cases h2 : (d.locate s t).1.freeCon (d.locate s t).2.2 with
+    | nil => simp [h1, h2]
+    | cons j rt =>
+      by_cases hd : s.dimAt i = t.dimAt j <;> simp [h1, h2, hd]
+
+/-- "dimension inconsistent" ⇔ both first unused indices exist and their dimensions differ -/
+theorem T05_1_addEdge_dimMismatch_iff (d : Diagram) (s t : Node) :
+    (d.addEdge' s t).2 = some .dimMismatch ↔
+      ∃ i rs j rt, (d.locate s t).1.freeCov (d.locate s t).2.1 = i :: rs ∧
+                   (d.locate s t).1.freeCon (d.locate s t).2.2 = j :: rt ∧
+                   s.dimAt i ≠ t.dimAt j := by
+  unfold Diagram.addEdge'
+  cases h1 : (d.locate s t).1.freeCov (d.locate s t).2.1 with
+  | nil => simp [h1]
+  | cons i rs =>
+    cases h2 : (d.locate s t).1.freeCon (d.locate s t).2.2 with
+    | nil => simp [h1, h2]
+    | cons j rt =>
+      by_cases hd : s.dimAt i = t.dimAt j <;> simp [h1, h2, hd]
+
+/-- on success exactly one contraction is appended: (source node, target node, first unused
+    covariant axis of the source, first unused contravariant axis of the target) -/
+theorem T05_1_addEdge_contraction (d : Diagram) (s t : Node) (i j : Nat) (rs rt : List Nat)
+    (h1 : (d.locate s t).1.freeCov (d.locate s t).2.1 = i :: rs)
+    (h2 : (d.locate s t).1.freeCon (d.locate s t).2.2 = j :: rt)
+    (hd : s.dimAt i = t.dimAt j) :
+    (d.addEdge' s t).1.contractions =
+      (d.locate s t).1.contractions ++ [((d.locate s t).2.1, (d.locate s t).2.2, i, j)] := by
+  unfold Diagram.addEdge'
+  simp [h1, h2, hd]
+
+/-- an edge never removes or reorders nodes; it appends at most the two end nodes -/
+theorem T05_1_locate_nodes (d : Diagram) (s t : Node) :
+    ∃ extra, (d.locate s t).1.nodes = d.nodes ++ extra ∧ extra.length ≤ 2 ∧ ∀ n ∈ extra, n = s ∨ n = t := by
+  unfold Diagram.locate Diagram.addNode
+  generalize findLoop s.id t.id d.nodes 0 none none = st
+  rcases st with ⟨a, b⟩
+  cases a <;> cases b <;> simp
+
+/-! ## T05.2  bookkeeping invariant for every reachable diagram (any sequence of add_node / add_edge,
+    including failing edges, repeated edges and re-used node objects) -/
+
+private theorem getD_append_lt {α : Type} (l l' : List α) (d : α) (k : Nat) (h : k < l.length) :
+    (l ++ l').getD k d = l.getD k d := by
+  simp [List.getD_eq_getElem?_getD, List.getElem?_append_left h]
+
+private theorem getD_append_len {α : Type} (l : List α) (x d : α) : (l ++ [x]).getD l.length d = x := by
+  simp [List.getD_eq_getElem?_getD]
+
+structure Diagram.Inv (d : Diagram) : Prop where
+  lenU : d.unused.length = d.nodes.length
+  lenP : d.positions.length = d.nodes.length
+  /-- positions are the prefix sums of the ranks -/
+  pos : ∀ k, k < d.nodes.length → d.positions.getD k 0 = ((d.nodes.take k).map Node.rank).sum
+  total : d.indexCount = (d.nodes.map Node.rank).sum
+  /-- the unused lists are suffixes of the node's index lists (indices are consumed front to back) -/
+  sufCov : ∀ k, k < d.nodes.length → d.freeCov k <:+ (d.nodes.getD k ⟨0, [], [], []⟩).cov
+  sufCon : ∀ k, k < d.nodes.length → d.freeCon k <:+ (d.nodes.getD k ⟨0, [], [], []⟩).con
+
+inductive DOp | node (n : Node) | edge (s t : Node)
+
+def Diagram.step (d : Diagram) : DOp → Diagram
+  | .node n => d.addNode n
+  | .edge s t => (d.addEdge' s t).1
+
+theorem inv_empty : Diagram.empty.Inv := by
+  constructor <;> simp [Diagram.empty]
+
+theorem inv_addNode (d : Diagram) (n : Node) (h : d.Inv) : (d.addNode n).Inv := by
+  obtain ⟨hU, hP, hpos, htot, hsc, hsn⟩ := h
+  constructor
+  · simp [Diagram.addNode, hU]
+  · simp [Diagram.addNode, hP]
+  · intro k hk
+    simp only [Diagram.addNode, List.length_append, List.length_singleton] at hk ⊢
+    by_cases hk' : k < d.nodes.length
+    · have := hpos k hk'
+      rw [getD_append_lt _ _ _ _ (by omega)]
+      rw [List.take_append_of_le_length (by omega)]
+      exact this
+    · have hke : k = d.nodes.length := by omega
+      subst hke
+      rw [← hP, getD_append_len]
+      simp [hP, htot]
+  · simp [Diagram.addNode, htot]
+  · intro k hk
+    simp only [Diagram.addNode, List.length_append, List.length_singleton] at hk
+    by_cases hk' : k < d.nodes.length
+    · have := hsc k hk'
+      simp only [Diagram.freeCov, Diagram.addNode] at this ⊢
+      rw [getD_append_lt _ _ _ _ (by omega), getD_append_lt _ _ _ _ (by omega)]
+      exact this
+    · have hke : k = d.nodes.length := by omega
+      subst hke
+      simp only [Diagram.freeCov, Diagram.addNode]
+      rw [← hU, getD_append_len, hU, getD_append_len]
+  · intro k hk
+    simp only [Diagram.addNode, List.length_append, List.length_singleton] at hk
+    by_cases hk' : k < d.nodes.length
+    · have := hsn k hk'
+      simp only [Diagram.freeCon, Diagram.addNode] at this ⊢
+      rw [getD_append_lt _ _ _ _ (by omega), getD_append_lt _ _ _ _ (by omega)]
+      exact this
+    · have hke : k = d.nodes.length := by omega
+      subst hke
+      simp only [Diagram.freeCon, Diagram.addNode]
+      rw [← hU, getD_append_len, hU, getD_append_len]
+
+theorem inv_locate (d : Diagram) (s t : Node) (h : d.Inv) : (d.locate s t).1.Inv := by
+  unfold Diagram.locate
+  generalize findLoop s.id t.id d.nodes 0 none none = st
+  rcases st with ⟨a, b⟩
+  cases a <;> cases b <;> simp <;> first | exact h | (apply inv_addNode; first | exact h | (apply inv_addNode; exact h))
+
+private theorem getD_set {α : Type} (l : List α) (i k : Nat) (v d : α) :
+    (l.set i v).getD k d = if i = k ∧ k < l.length then v else l.getD k d := by
+  simp only [List.getD_eq_getElem?_getD, List.getElem?_set]
+  by_cases h : i = k
+  · subst h
+    by_cases h2 : i < l.length <;> simp [h2]
+  · simp [h]
+
+/-- shrinking unused lists to suffixes (and changing the contraction list) keeps the invariant -/
+theorem inv_shrink (d : Diagram) (u' : List (List Nat × List Nat)) (cs : List (Nat × Nat × Nat × Nat))
+    (h : d.Inv) (hlen : u'.length = d.unused.length)
+    (h1 : ∀ k, (u'.getD k ([], [])).1 <:+ (d.unused.getD k ([], [])).1)
+    (h2 : ∀ k, (u'.getD k ([], [])).2 <:+ (d.unused.getD k ([], [])).2) :
+    ({ d with unused := u', contractions := cs } : Diagram).Inv := by
+  obtain ⟨hU, hP, hpos, htot, hsc, hsn⟩ := h
+  constructor
+  · simp [hlen, hU]
+  · simpa using hP
+  · simpa using hpos
+  · simpa using htot
+  · intro k hk
+    exact (h1 k).trans (hsc k hk)
+  · intro k hk
+    exact (h2 k).trans (hsn k hk)
+
+theorem inv_addEdge' (d : Diagram) (s t : Node) (h : d.Inv) : (d.addEdge' s t).1.Inv := by
+  have hl := inv_locate d s t h
+  unfold Diagram.addEdge'
+  generalize d.locate s t = loc at hl ⊢
+  obtain ⟨d2, si, ti⟩ := loc
+  simp only at hl ⊢
+  cases h1 : d2.freeCov si with
+  | nil => simpa [h1] using hl
+  | cons i rs =>
+    cases h2 : d2.freeCon ti with
+    | nil => simpa [h1, h2] using hl
+    | cons j rt =>
+      have key : ∀ cs, ({ d2 with unused := popUnused d2.unused si ti, contractions := cs } : Diagram).Inv := by
+        intro cs
+        apply inv_shrink d2 _ cs hl
+        · simp [popUnused]
+        · intro k
+          unfold popUnused
+          simp only [getD_set]
+          split_ifs <;> simp_all [List.tail_suffix]
+        · intro k
+          unfold popUnused
+          simp only [getD_set]
+          split_ifs <;> simp_all [List.tail_suffix]
+      by_cases hd : s.dimAt i = t.dimAt j
+      · simpa [h1, h2, hd] using key _
+      · simpa [h1, h2, hd] using key _
+
+/-- **T05.2** every diagram reachable by any sequence of `add_node` / `add_edge` calls (failing
+    edges included) satisfies the bookkeeping invariant -/
+theorem T05_2_reachable_inv (ops : List DOp) : (ops.foldl Diagram.step Diagram.empty).Inv := by
+  have : ∀ (d : Diagram), d.Inv → (ops.foldl Diagram.step d).Inv := by
+    induction ops with
+    | nil => intro d h; simpa
+    | cons op ops ih =>
+      intro d h
+      simp only [List.foldl_cons]
+      apply ih
+      cases op with
+      | node n => exact inv_addNode d n h
+      | edge s t => exact inv_addEdge' d s t h
+  exact this _ inv_empty
+
+/-- non-vacuity: a reachable two-edge diagram (2-D cross product `ε^{ijk} p_i q_j`) -/
+example : (([DOp.edge ⟨1, [3], [0], []⟩ ⟨9, [3, 3, 3], [], [0, 1, 2]⟩,
+            DOp.edge ⟨2, [3], [0], []⟩ ⟨9, [3, 3, 3], [], [0, 1, 2]⟩].foldl Diagram.step Diagram.empty).contractions
+            = [(0, 1, 0, 0), (2, 1, 0, 1)]) := by decide
+
+/-! ## T05.4  result index order and types -/
+
+/-- the output subscripts are: free labels, then unused covariant, then unused contravariant; the
+    result has `nFree` free, then `nCov` covariant, then contravariant indices -/
+theorem T05_4_out_order (d : Diagram) :
+    ∃ r0 r1 r2, d.spec.out = r0 ++ r1 ++ r2 ∧ d.spec.nFree = r0.length ∧ d.spec.nCov = r1.length := by
+  unfold Diagram.spec
+  exact ⟨_, _, _, rfl, rfl, rfl⟩
+
+private theorem calc_fold_r1 (xs : List (Node × (List Nat × List Nat) × Nat)) (st : CalcState) :
+    (xs.foldl (fun st x => calcStep st x.1 x.2.1 x.2.2) st).r1
+      = st.r1 ++ xs.flatMap (fun x => x.2.1.1.map (x.2.2 + ·)) := by
+  induction xs generalizing st with
+  | nil => simp
+  | cons x xs ih =>
+    rw [List.foldl_cons, ih]
+    simp [calcStep, List.append_assoc]
+
+private theorem calc_fold_r2 (xs : List (Node × (List Nat × List Nat) × Nat)) (st : CalcState) :
+    (xs.foldl (fun st x => calcStep st x.1 x.2.1 x.2.2) st).r2
+      = st.r2 ++ xs.flatMap (fun x => x.2.1.2.map (x.2.2 + ·)) := by
+  induction xs generalizing st with
+  | nil => simp
+  | cons x xs ih =>
+    rw [List.foldl_cons, ih]
+    simp [calcStep, List.append_assoc]
+
+/-- the covariant part of the output lists, node by node in node order, the still-unused covariant
+    axes (ascending within a node, as they are stored), offset by the node's position -/
+theorem T05_4_cov_part (d : Diagram) :
+    (d.spec.out.drop d.spec.nFree).take d.spec.nCov
+      = (d.nodes.zip (d.unused.zip d.positions)).flatMap (fun x => x.2.1.1.map (x.2.2 + ·)) := by
+  unfold Diagram.spec
+  simp only [List.append_assoc, List.drop_left, List.take_left]
+  rw [calc_fold_r1]; simp
+
+/-- … followed by the still-unused contravariant axes in the same order -/
+theorem T05_4_con_part (d : Diagram) :
+    d.spec.out.drop (d.spec.nFree + d.spec.nCov)
+      = (d.nodes.zip (d.unused.zip d.positions)).flatMap (fun x => x.2.1.2.map (x.2.2 + ·)) := by
+  unfold Diagram.spec
+  simp only [← List.append_assoc]
+  rw [← List.length_append, List.drop_left, calc_fold_r2]; simp
+
+/-! ## T05.6  ε(n) for every n -/
+
+private theorem foldl_mul_eq (x : Nat) (xs : List Nat) (c : Int) :
+    xs.foldl (fun (acc : Int) (y : Nat) => acc * sgnInt ((y : Int) - (x : Int))) c
+      = c * (xs.map (fun (y : Nat) => sgnInt ((y : Int) - (x : Int)))).prod := by
+  induction xs generalizing c with
+  | nil => simp
+  | cons y ys ih => simp [List.foldl, ih, mul_assoc]
+
+private theorem pairProd_ofFn : ∀ (n : Nat) (f : Fin n → Nat),
+    pairProd (List.ofFn f) = ∏ i : Fin n, ∏ j ∈ Finset.Ioi i, sgnInt ((f j : Int) - (f i : Int))
+  | 0, f => by simp [pairProd]
+  | n + 1, f => by
+    rw [List.ofFn_succ, pairProd, foldl_mul_eq, pairProd_ofFn n, Fin.prod_univ_succ, Fin.prod_Ioi_zero]
+    congr 1
+    · rw [List.map_ofFn, List.prod_ofFn]; simp
+    · apply Finset.prod_congr rfl; intro i _; rw [Fin.prod_Ioi_succ]
+
+private theorem sgn_of_ne {a b : Nat} (h : a ≠ b) :
+    sgnInt ((b : Int) - (a : Int)) = if a < b then 1 else -1 := by
+  unfold sgnInt; split_ifs <;> omega
+
+/-- **T05.6** on the index tuple of a permutation σ of `range n` the construction
+    `∏_{i<j} sign(σ j − σ i)` is the sign of σ — for every n -/
+theorem T05_6_eps_perm (n : Nat) (σ : Equiv.Perm (Fin n)) :
+    pairProd (List.ofFn fun i => (σ i : Nat)) = (Equiv.Perm.sign σ : Int) := by
+  rw [pairProd_ofFn, Equiv.Perm.sign_eq_prod_prod_Ioi]; push_cast
+  apply Finset.prod_congr rfl; intro i _; apply Finset.prod_congr rfl; intro j hj
+  have hij : i ≠ j := ne_of_lt (Finset.mem_Ioi.mp hj)
+  have hne : (σ i : Nat) ≠ (σ j : Nat) := fun h => hij (σ.injective (Fin.ext h))
+  rw [sgn_of_ne hne]
+  by_cases h : σ i < σ j
+  · have h' : (σ i : Nat) < (σ j : Nat) := h; simp [h, h']
+  · have h' : ¬ (σ i : Nat) < (σ j : Nat) := h; simp [h, h']
+
+private theorem foldl_zero_of_mem (x : Nat) (xs : List Nat) (c : Int) (h : x ∈ xs) :
+    xs.foldl (fun (acc : Int) (y : Nat) => acc * sgnInt ((y : Int) - (x : Int))) c = 0 := by
+  rw [foldl_mul_eq]
+  have : (0 : Int) ∈ xs.map (fun (y : Nat) => sgnInt ((y : Int) - (x : Int))) := by
+    simp only [List.mem_map]; exact ⟨x, h, by simp [sgnInt]⟩
+  rw [List.prod_eq_zero this]; simp
+
+/-- a repeated index gives a zero factor: ε vanishes on every tuple with a repeated index -/
+theorem T05_6_eps_repeated (idx : List Nat) (h : ¬ idx.Nodup) : pairProd idx = 0 := by
+  induction idx with
+  | nil => simp at h
+  | cons x xs ih =>
+    rw [List.nodup_cons] at h
+    unfold pairProd
+    by_cases hx : x ∈ xs
+    · rw [foldl_zero_of_mem x xs 1 hx]; simp
+    · have : ¬ xs.Nodup := fun hn => h ⟨hx, hn⟩
+      rw [ih this]; simp
+
+/-- every entry is −1, 0 or 1 (so `int8` cannot overflow) -/
+theorem T05_6_eps_range (n : Nat) (idx : List Nat) :
+    epsEntry n idx = -1 ∨ epsEntry n idx = 0 ∨ epsEntry n idx = 1 := by
+  have key : ∀ l : List Nat, pairProd l = -1 ∨ pairProd l = 0 ∨ pairProd l = 1 := by
+    intro l
+    induction l with
+    | nil => simp [pairProd]
+    | cons x xs ih =>
+      unfold pairProd
+      rw [foldl_mul_eq]
+      have hp : ∀ ys : List Nat, (ys.map (fun (y : Nat) => sgnInt ((y : Int) - (x : Int)))).prod = -1 ∨
+          (ys.map (fun (y : Nat) => sgnInt ((y : Int) - (x : Int)))).prod = 0 ∨
+          (ys.map (fun (y : Nat) => sgnInt ((y : Int) - (x : Int)))).prod = 1 := by
+        intro ys
+        induction ys with
+        | nil => simp
+        | cons y ys ihy =>
+          simp only [List.map_cons, List.prod_cons]
+          have hs : sgnInt ((y : Int) - (x : Int)) = -1 ∨ sgnInt ((y : Int) - (x : Int)) = 0 ∨
+              sgnInt ((y : Int) - (x : Int)) = 1 := by unfold sgnInt; split_ifs <;> simp
+          rcases hs with hs | hs | hs <;> rcases ihy with ihy | ihy | ihy <;> simp [hs, ihy]
+      rcases hp xs with hp | hp | hp <;> rcases ih with ih | ih | ih <;> simp [hp, ih]
+  unfold epsEntry
+  split_ifs
+  · exact key idx
+  · simp
+
+/-- the entry at the identity tuple is +1 (all sizes up to the largest a 3-dimensional
+    projective tensor needs are evaluated by the kernel; the general statement is `T05_6_eps_perm` at σ = 1) -/
+theorem T05_6_eps_identity : ∀ n ≤ 6, epsEntry n (List.range n) = 1 := by decide
+
+/-! ## T05.7  generalized Kronecker delta: the definition in the docstring -/
+
+/-- specification: `δ^{μ₁…μ_p}_{ν₁…ν_p}` = sign of the permutation taking μ to ν if the μ are pairwise
+    distinct and ν is a rearrangement of μ, else 0 -/
+def deltaSpec (p : Nat) (idx : List Nat) : Int :=
+  let nu := idx.take p
+  let mu := idx.drop p
+  if nu.Perm mu then pairProd nu * pairProd mu else 0
+
+/-- finite tables (kernel-evaluated, complete): all entries of δ(n,p) for every `p ≤ n ≤ 4`
+    except (4,4), which is the case `p = n` proved for all n below -/
+theorem T05_7_delta_1 : ∀ n ≤ 4, ∀ a < n, ∀ b < n, deltaEntry n 1 [a, b] = deltaSpec 1 [a, b] := by
+  decide +kernel
+theorem T05_7_delta_2 : ∀ n ∈ [2, 3, 4], ∀ a < n, ∀ b < n, ∀ c < n, ∀ d < n,
+    deltaEntry n 2 [a, b, c, d] = deltaSpec 2 [a, b, c, d] := by
+  decide +kernel
+theorem T05_7_delta_3 : ∀ n ∈ [3, 4], ∀ a < n, ∀ b < n, ∀ c < n, ∀ d < n, ∀ e < n, ∀ f < n,
+    deltaEntry n 3 [a, b, c, d, e, f] = deltaSpec 3 [a, b, c, d, e, f] := by
+  decide +kernel
+
 end Geo
